@@ -163,7 +163,7 @@ package redis
 //@   requires d != nil && 0 <= n
 //@   modifies d.allocs, d.buf
 //@   ensures @len len(ss) == n && cap(ss) == n
-//@   ensures @slab-disjoint n > 0 && n < 512 ==> disjoint(ss, d.buf)
+//@   ensures @slab-disjoint n > 0 ==> disjoint(ss, d.buf)
 //@   ensures @not-old-memory n > 0 ==> (fresh(ss) || (within(ss, old(d.buf)) && withincap(ss, old(d.buf))))
 //@   ensures @slab-suffix fresh(d.buf) || (within(d.buf, old(d.buf)) && withincap(d.buf, old(d.buf)))
 
@@ -214,7 +214,7 @@ package redis
 //@   requires readerRI(b) && (b.err == nil ==> windowok(b))
 //@   modifies b.r, b.w, b.err, b.buf[0:len(b.buf)], fetched
 //@   ensures @ri readerRI(b) && b.buf == old(b.buf) && b.rd == old(b.rd) && (b.err == nil ==> windowok(b))
-//@   ensures @line result1 == nil ==> len(result0) >= 1 && len(result0) <= len(b.buf) && base(result0) == base(b.buf)
+//@   ensures @line result1 == nil ==> len(result0) >= 1 && len(result0) <= len(b.buf) && base(result0) == base(b.buf) && within(result0, b.buf)
 //@   ensures @line-is-next-stream-bytes result1 == nil ==> b.err == nil && rpos(b) == old(rpos(b)) + len(result0) && forall k int :: 0 <= k && k < len(result0) ==> result0[k] == stream[src(b)][old(rpos(b)) + k]
 //@   ensures @line-ends-at-first-delimiter result1 == nil ==> result0[len(result0)-1] == delim && forall k int :: 0 <= k && k < len(result0) - 1 ==> result0[k] != delim
 //@   ensures @full-or-error result1 != nil ==> (len(result0) == 0 || result0 == b.buf)
@@ -233,12 +233,46 @@ package redis
 //@   ensures @result-does-not-alias-the-read-buffer result1 == nil ==> disjoint(result0, b.buf)
 //@   requires @slab-apart disjoint(b.buf, b.slice.buf)
 //@   ensures @slab-apart disjoint(b.buf, b.slice.buf)
+//@   let cP = rpos(b)
+//@   let cL = len(b.buf)
+//@   ensures @line-is-next-stream-bytes result1 == nil ==> rpos(b) == old(rpos(b)) + len(result0) && forall k int :: 0 <= k && k < len(result0) ==> result0[k] == stream[src(b)][old(rpos(b)) + k]
+//@   ensures @line-ends-at-first-delimiter result1 == nil ==> result0[len(result0)-1] == delim && forall k int :: 0 <= k && k < len(result0) - 1 ==> result0[k] != delim
 //@   loop 0 invariant @fragments-are-copies forall j int :: 0 <= j && j < len(full) ==> disjoint(full[j], b.buf)
+//@   loop 0 invariant @consumed rpos(b) == old(rpos(b)) + size && cL == len(b.buf) && cP == old(rpos(b))
+//@   loop 0 invariant @size-is-fragments-plus-line size == times(len(full), len(b.buf)) + ite(isnil(last), 0, len(last))
+//@   loop 0 invariant @fragments-are-whole-buffers forall j int :: {full[j]} 0 <= j && j < len(full) ==> len(full[j]) == len(b.buf)
+//@   loop 0 invariant @fragments-are-apart-from-the-slab forall j int :: {full[j]} 0 <= j && j < len(full) ==> disjoint(full[j], b.slice.buf)
+//@   loop 0 invariant @offsets-grow forall j int :: {times(j, len(b.buf))} 0 <= j && j <= len(full) ==> 0 <= times(j, len(b.buf)) && times(j, len(b.buf)) <= times(len(full), len(b.buf))
+//@   loop 0 invariant @fragments-are-the-stream forall j int, k int :: {fragidx(cP, j, cL, k)} 0 <= j && j < len(full) && 0 <= k && k < len(b.buf) ==> full[j][k] == stream[src(b)][fragidx(cP, j, cL, k)] && full[j][k] != delim
+//@   loop 0 invariant @line-is-the-stream !isnil(last) ==> within(last, b.buf) && last[len(last)-1] == delim && forall k int :: {last[k]} 0 <= k && k < len(last) ==> last[k] == stream[src(b)][old(rpos(b)) + times(len(full), len(b.buf)) + k] && (k < len(last) - 1 ==> last[k] != delim)
+//@   loop 0 unfold times(len(full) + 1, len(b.buf))
+//@   loop 0 unfold times(0, len(b.buf))
 //@   loop 0 invariant disjoint(b.buf, b.slice.buf)
 //@   loop 0 invariant readerRI(b) && (b.err == nil ==> windowok(b)) && b.rd == old(b.rd) && 0 <= size && (!isnil(last) ==> size >= len(last) && len(last) >= 1)
 //@   loop 0 invariant (cap(full) == 0 || fresh(full)) && (fresh(b.slice.buf) || within(b.slice.buf, old(b.slice.buf))) && b.buf == old(b.buf)
 //@   loop 0 assume size <= 2305843009213693952 && len(b.buf) <= 2305843009213693952
 //@   loop 1 invariant disjoint(buf, b.buf) && disjoint(b.buf, b.slice.buf) && b.buf == old(b.buf) && (b.err == nil ==> windowok(b))
+//@   loop 1 invariant @assembling size <= 2305843009213693952 && cL <= 2305843009213693952 && cL == len(b.buf) && cP == old(rpos(b)) && rpos(b) == cP + size && size == times(len(full), cL) + len(last) && n == times(rangeindex + 1, cL) && rangeindex + 1 <= len(full)
+//@   loop 1 invariant @fragments-kept forall j int :: {full[j]} 0 <= j && j < len(full) ==> len(full[j]) == cL && disjoint(full[j], buf)
+//@   loop 1 invariant @offsets-grow forall j int :: {times(j, cL)} 0 <= j && j <= len(full) ==> 0 <= times(j, cL) && times(j, cL) <= times(len(full), cL)
+//@   loop 1 invariant @fragments-are-the-stream forall j int, k int :: {fragidx(cP, j, cL, k)} {full[j][k]} 0 <= j && j < len(full) && 0 <= k && k < cL ==> full[j][k] == stream[src(b)][fragidx(cP, j, cL, k)] && full[j][k] != delim
+//@   loop 1 invariant @line-is-the-stream within(last, b.buf) && last[len(last)-1] == delim && forall k int :: {last[k]} 0 <= k && k < len(last) ==> last[k] == stream[src(b)][cP + times(len(full), cL) + k] && (k < len(last) - 1 ==> last[k] != delim)
+//@   loop 1 invariant @assembled forall k int :: {buf[k]} 0 <= k && k < n ==> buf[k] == stream[src(b)][cP + k] && buf[k] != delim
+//@   loop 1 unfold times(rangeindex + 2, cL)
+//@   instance @assembled of loop 1 @fragments-are-the-stream with j = rangeindex + 1, k = k - n
+//@   instance @assembled of loop 1 @fragments-kept with j = rangeindex + 1
+//@   instance @line-is-the-stream of loop 0 @line-is-the-stream with k = k
+//@   instance @assembling of loop 1 @fragments-kept with j = rangeindex + 1
+//@   instance @assembling of loop 1 @offsets-grow with j = rangeindex + 2
+//@   instance @fragments-are-the-stream of loop 1 @fragments-kept with j = j
+//@   instance @fragments-are-the-stream of loop 0 @fragments-are-apart-from-the-slab with j = j
+//@   instance @fragments-are-the-stream of loop 0 @fragments-are-copies with j = j
+//@   instance @fragments-are-the-stream of loop 0 @fragments-are-whole-buffers with j = j
+//@   instance @line-is-next-stream-bytes of loop 1 @line-is-the-stream with k = k - n
+//@   instance @line-is-next-stream-bytes of loop 1 @assembled with k = k
+//@   instance @line-ends-at-first-delimiter of loop 1 @assembled with k = k
+//@   instance @line-ends-at-first-delimiter of loop 1 @line-is-the-stream with k = k - n
+//@   loop 1 unfold times(0, cL)
 //@   loop 1 invariant 0 <= n && n <= len(buf) && len(buf) == size && !isnil(last) && size >= len(last) && len(last) >= 1 && (size == 0 || fresh(buf) || within(buf, old(b.slice.buf)))
 
 //@ func (*Reader).ReadFull
